@@ -9,7 +9,9 @@
 //   T      0..2  number of trailing dimensions of the data array
 //   A      0/1   passive / active data (active: the Jacobian d out / d data is computed with
 //                Stack::jacobian and printed sparsely)
-//   NARGS  0: call without options and value (defaults); 1: options only; 2: options and value
+//   NARGS  0: call without options and value (defaults); 1: options only; 2: options and value;
+//          3,4,5: the same three calls with EXPRESSION arguments (x+0.0, data*1.0, xi+0.0: exact), i.e. the overloads
+//          that cast their arguments to arrays and forward
 //   OPT    option word (unsigned);  EV extrapolation value
 //   numbers are `p`, `p/q` (q a power of two: dyadic, so exactly representable), `inf`, `-inf`, `nan`
 //   `interpf ...` (float regime): the same with every finite number given as 16 hex digits = the bits of
@@ -125,6 +127,10 @@ template <int D> struct Call;
 template <> struct Call<1> {
   template <class M> static Array<M::rank, double, M::is_active> go(const Case& c, const M& m) {
     Vector x = mkvec(c.knots[0]), xi = mkvec(c.q[0]);
+    // nargs 3..5: the Expression-argument overloads (the arguments are cast to arrays inside the library)
+    if (c.nargs == 3) return interp(x + 0.0, m * 1.0, xi + 0.0);
+    if (c.nargs == 4) return interp(x + 0.0, m * 1.0, xi + 0.0, c.opt);
+    if (c.nargs == 5) return interp(x + 0.0, m * 1.0, xi + 0.0, c.opt, c.ev);
     if (c.nargs == 0) return interp(x, m, xi);
     if (c.nargs == 1) return interp(x, m, xi, c.opt);
     return interp(x, m, xi, c.opt, c.ev);
@@ -133,6 +139,9 @@ template <> struct Call<1> {
 template <> struct Call<2> {
   template <class M> static Array<M::rank - 1, double, M::is_active> go(const Case& c, const M& m) {
     Vector x = mkvec(c.knots[0]), y = mkvec(c.knots[1]), xi = mkvec(c.q[0]), yi = mkvec(c.q[1]);
+    if (c.nargs == 3) return interp2d(x + 0.0, y + 0.0, m * 1.0, xi + 0.0, yi + 0.0);
+    if (c.nargs == 4) return interp2d(x + 0.0, y + 0.0, m * 1.0, xi + 0.0, yi + 0.0, c.opt);
+    if (c.nargs == 5) return interp2d(x + 0.0, y + 0.0, m * 1.0, xi + 0.0, yi + 0.0, c.opt, c.ev);
     if (c.nargs == 0) return interp2d(x, y, m, xi, yi);
     if (c.nargs == 1) return interp2d(x, y, m, xi, yi, c.opt);
     return interp2d(x, y, m, xi, yi, c.opt, c.ev);
@@ -142,6 +151,9 @@ template <> struct Call<3> {
   template <class M> static Array<M::rank - 2, double, M::is_active> go(const Case& c, const M& m) {
     Vector x = mkvec(c.knots[0]), y = mkvec(c.knots[1]), z = mkvec(c.knots[2]);
     Vector xi = mkvec(c.q[0]), yi = mkvec(c.q[1]), zi = mkvec(c.q[2]);
+    if (c.nargs == 3) return interp3d(x + 0.0, y + 0.0, z + 0.0, m * 1.0, xi + 0.0, yi + 0.0, zi + 0.0);
+    if (c.nargs == 4) return interp3d(x + 0.0, y + 0.0, z + 0.0, m * 1.0, xi + 0.0, yi + 0.0, zi + 0.0, c.opt);
+    if (c.nargs == 5) return interp3d(x + 0.0, y + 0.0, z + 0.0, m * 1.0, xi + 0.0, yi + 0.0, zi + 0.0, c.opt, c.ev);
     if (c.nargs == 0) return interp3d(x, y, z, m, xi, yi, zi);
     if (c.nargs == 1) return interp3d(x, y, z, m, xi, yi, zi, c.opt);
     return interp3d(x, y, z, m, xi, yi, zi, c.opt, c.ev);
@@ -251,7 +263,7 @@ static bool parse_case(const Words& w, Case& c) {
   if (o >= 4294967296ULL) return false;
   c.opt = static_cast<unsigned int>(o);
   if (!parse_num(h[5], c.ev)) return false;
-  if (c.D < 1 || c.D > 3 || c.T < 0 || c.T > 2 || c.A < 0 || c.A > 1 || c.nargs < 0 || c.nargs > 2) return false;
+  if (c.D < 1 || c.D > 3 || c.T < 0 || c.T > 2 || c.A < 0 || c.A > 1 || c.nargs < 0 || c.nargs > 5) return false;
   if (static_cast<int>(sec.size()) != 1 + c.D + 2 + c.D) return false;
   for (int d = 0; d < c.D; ++d) if (!parse_list(sec[1 + d], c.knots[d])) return false;
   const Words& dw = sec[1 + c.D];
